@@ -3,13 +3,17 @@
    python3 vp/seed_import.py /tmp/seed/out/C05-1 [...]      (needs confirm.json with confirmed=true)"""
 import json, os, shutil, sys
 ROOT = os.path.dirname(os.path.dirname(os.path.abspath(__file__)))
-for d in sys.argv[1:]:
+ARGS = sys.argv[1:]
+PREFIX = ""
+if ARGS and ARGS[0].startswith("--prefix="):
+    PREFIX = ARGS.pop(0).split("=", 1)[1]
+for d in ARGS:
     d = d.rstrip("/")
     conf = json.load(open(os.path.join(d, "confirm.json")))
     if not conf.get("confirmed"):
         print("NOT CONFIRMED, skipped:", d); continue
     am = json.load(open(os.path.join(d, "meta.json")))
-    sid = "%s-%s" % (os.path.basename(d), am.get("slug", "change"))
+    sid = "%s%s-%s" % (PREFIX, os.path.basename(d), am.get("slug", "change"))
     out = os.path.join(ROOT, "seeded", sid)
     os.makedirs(out, exist_ok=True)
     shutil.copy(os.path.join(d, "patch.diff"), os.path.join(out, "patch.diff"))
